@@ -13,6 +13,7 @@
 import Kopf.Lemmas.C19_Insights
 import Kopf.Lemmas.C19_Ensemble
 import Kopf.Lemmas.C19_Orchestrator
+import Kopf.Model.C19_Wiring
 namespace Kopf.C19
 
 /-! ## Within one watch -/
@@ -343,6 +344,109 @@ theorem listed_namespace_ignored_witness :
   refine ⟨⟨?_, by decide, by decide, by decide, by decide, by decide⟩,
     ⟨by decide, by decide, by decide, by decide, by decide, by decide⟩⟩
   intro a ha; simp at ha; subst ha; exact ⟨1, .added, true, rfl⟩
+
+/-! ### Terminating namespaces: `revise_namespaces` reads deletionTimestamp + status.conditions -/
+
+theorem mem_reviseNs_of_ne {served : List Nat} {e : NsEv} {k : Nat} (h : k ≠ e.key) :
+    k ∈ reviseNs served e ↔ k ∈ served := by
+  unfold reviseNs
+  split
+  · exact Iff.rfl
+  · split
+    · simp [List.mem_filter, h]
+    · split
+      · exact Iff.rfl
+      · simp [h]
+
+/-- An item that says "the namespace exists" keeps or puts it in the insights: a live body adds it, a Terminating
+    body with content / finalizers remaining changes nothing. -/
+theorem mem_reviseNs_of_exists {served : List Nat} {e : NsEv} (hex : e.exists_ = true)
+    (h : e.key ∈ served ∨ e.mark = .live) : e.key ∈ reviseNs served e := by
+  obtain ⟨gone, mark, key⟩ := e
+  cases gone <;> cases mark <;> simp [NsEv.exists_] at hex <;>
+    simp [reviseNs, NsEv.deleted, NsEv.blockers] at h ⊢
+  · by_cases hc : key ∈ served <;> simp [hc]
+  · exact h
+
+/-- **A served namespace stays served for as long as it exists — through its whole Terminating phase.** Whatever is
+    handed to `revise_namespaces` (listed bodies, events, of any namespaces, in any order): if every item about
+    namespace `k` says that it exists (not a DELETED event; the body live, or marked for deletion with some
+    condition still True), `k` stays in `insights.namespaces`. So the objects in a namespace that is being deleted
+    — the ones that carry the operator's finalizers and hold the deletion up — keep being watched. -/
+theorem terminating_namespace_stays_served (served : List Nat) (es : List NsEv) (k : Nat)
+    (hk : k ∈ served) (hex : ∀ e ∈ es, e.key = k → e.exists_ = true) : k ∈ reviseAll served es := by
+  induction es generalizing served with
+  | nil => exact hk
+  | cons e es ih =>
+      apply ih
+      · by_cases hke : k = e.key
+        · subst hke
+          exact mem_reviseNs_of_exists (hex e (by simp) rfl) (Or.inl hk)
+        · exact (mem_reviseNs_of_ne hke).mpr hk
+      · intro e' he' hk'
+        exact hex e' (by simp [he']) hk'
+
+/-- the hypothesis is met through a realistic deletion: live, marked + blocked (twice), and other namespaces coming
+    and going meanwhile; the namespace leaves the insights only with the item that says nothing remains -/
+example :
+    reviseAll [1, 2] [⟨false, .blocked, 1⟩, ⟨true, .live, 2⟩, ⟨false, .live, 3⟩, ⟨false, .blocked, 1⟩] = [3, 1] ∧
+    reviseAll [3, 1] [⟨false, .finishing, 1⟩, ⟨true, .finishing, 1⟩] = [3] := by decide
+
+/-- An item that says the namespace is gone — a DELETED event, or a Terminating body with no condition True — and
+    carries no blocker removes it. -/
+theorem namespace_gone_unserved (served : List Nat) (e : NsEv) (hd : e.deleted = true) (hb : e.blockers = false) :
+    e.key ∉ reviseNs served e := by
+  unfold reviseNs
+  simp [hd, hb, List.mem_filter]
+
+/-- **"Every existing namespace that matches is served" is false of the code** (open finding C19-F9): a namespace that
+    is ALREADY Terminating with something remaining when it is first seen — in the start-up listing after an operator
+    restart, exactly when its objects wait for the operator to release their finalizers — is not added (`deleted and
+    blockers`: log only), and no later item about it adds it while it stays blocked; the same cluster state is served
+    when the operator saw the namespace alive before. What is served depends on the history, not on the cluster. -/
+theorem terminating_at_first_sight_unserved_witness :
+    reviseAll [] [⟨false, .blocked, 1⟩] = [] ∧
+    reviseAll [] [⟨false, .live, 1⟩, ⟨false, .blocked, 1⟩] = [1] ∧
+    (∀ es : List NsEv, (∀ e ∈ es, e.key = 1 → e.mark = .blocked) → 1 ∉ reviseAll [] es) := by
+  refine ⟨by decide, by decide, ?_⟩
+  suffices h : ∀ (es : List NsEv) (served : List Nat), 1 ∉ served →
+      (∀ e ∈ es, e.key = 1 → e.mark = .blocked) → 1 ∉ reviseAll served es from fun es => h es [] (by simp)
+  intro es
+  induction es with
+  | nil => intro served hs _; exact hs
+  | cons e es ih =>
+      intro served hs hb
+      apply ih
+      · by_cases hke : 1 = e.key
+        · have hm := hb e (by simp) hke.symm
+          obtain ⟨gone, mark, key⟩ := e
+          simp at hm hke
+          subst hm
+          cases gone <;> simpa [reviseNs, NsEv.deleted, NsEv.blockers] using hs
+        · exact fun h => hs ((mem_reviseNs_of_ne hke).mp h)
+      · intro e' he' hk'
+        exact hb e' (by simp [he']) hk'
+
+/-! ### The operator's pause reaches every resource watch-stream (the hand-over of `operator_paused`) -/
+
+/-- With all three hand-overs in place a watch-stream of the operator is the watch-stream of `Model/C19_Watch`:
+    `paused_silent`, `pause_noticed_is_quiet`, `fresh_list_on_resume` … hold for each of them under the OPERATOR's
+    pause toggle. (That the code's hand-overs are in place is `Tie.pause_wired`, re-proved on every run.) -/
+theorem wired_stream_is_the_stream (x : Wiring) (hx : x.wired = true) (w : World) (as : List Act) :
+    opRun x w as = run w as := by
+  induction as generalizing w with
+  | nil => rfl
+  | cons a as ih => simp [opRun, run, opStep, hx, ih]
+
+/-- **Any dropped hand-over un-pauses the streams silently**: the operator is paused and its pause-waiters have
+    run, the reconnect backoff ends — the wired stream blocks (no observation at all), the unwired one sends a
+    LIST request; nothing fails, nothing is logged. (White-box mutant m1; the whole-operator pause runs catch it
+    with a replay.) -/
+theorem unwired_stream_lists_while_paused_witness (x : Wiring) (hx : x.wired = false) :
+    (opRun x init [.pause, .notice, .wake]).outs = [.reqList] ∧
+    (opRun x init [.pause, .notice, .wake]).phase = .listing ∧
+    (run init [.pause, .notice, .wake]).outs = [] ∧ (run init [.pause, .notice, .wake]).phase = .blocked := by
+  refine ⟨?_, ?_, by decide, by decide⟩ <;> simp [opRun, opStep, hx] <;> decide
 
 /-! ## Across watches: the ensemble -/
 
